@@ -23,6 +23,9 @@ Record nalu := mk_nalu { nref : N; ntype : N; ndata : bytes }.
 Definition nalu_marshal (n : nalu) : bytes :=
   N.lor (u8 (u8 (nref n) * 32)) (u8 (ntype n)) :: ndata n.
 
+(* NALU.Size: 1 + len(v.Data) *)
+Definition nalu_size (n : nalu) : N := 1 + lenN (ndata n).
+
 (* NALU.UnmarshalBinary on NewNALU(): every field is assigned *)
 Definition nalu_unmarshal (data : bytes) : res nalu :=
   if negb (len_gt data 0) then Err 1 else                  (* len(data) < 1: "empty NALU" *)
@@ -255,7 +258,7 @@ Definition run_c12 (c : sx) : sx :=
   | SL [SZ 2; SZ r; SZ t; SB d] =>
       let b := nalu_marshal (mk_nalu (Z.to_N r) (Z.to_N t) d) in
       match nalu_unmarshal b with
-      | Ok n => s_ok [SB b; sN (nref n); sN (ntype n); SB (ndata n)]
+      | Ok n => s_ok [SB b; sN (nref n); sN (ntype n); SB (ndata n); sN (nalu_size n)]
       | Err e => s_ok [SB b; s_err e]
       | Panic _ => s_panic
       end
